@@ -16,7 +16,7 @@ def main(tier, seed, replay=None):
     for i in range(n):
         names, ops, info = c16.gen_model(rng, P=rng.randint(1, 4))
         P, N = info["P"], info["N"]
-        mis = rng.choice(["len_fun", "len_deriv", "len_inv", "index", "count", "mixed"])
+        mis = rng.choice(["len_fun", "len_deriv", "len_inv", "index", "count", "mixed", "cancel", "cancel"])
         kinds[mis] = kinds.get(mis, 0) + 1
         wrong = rng.choice([0, N - 1, N + 1, 2 * N])
         if mis in ("len_fun", "mixed"):
@@ -29,6 +29,31 @@ def main(tier, seed, replay=None):
             j = rng.choice(js)
             o = ops[j]
             ops[j] = (o[0], o[1], o[2], o[3], wrong)
+        if mis == "cancel":
+            # two positions of the same evaluation whose wrong lengths add up to the right total (N - d and N + d, or 0 and 2N):
+            # the shape contract is per column
+            d = rng.choice([1, 2, 3, N])
+            la, lb = N - d, N + d
+            fj = [j for j, o in enumerate(ops) if o[0] in ("function", "invariant")]
+            if len(fj) < 2:
+                pos = [j for j in range(len(ops) + 1) if j == len(ops) or ops[j][0] != "partial_deriv"]
+                ops.insert(rng.choice(pos), ("invariant", 78))
+                fj = [j for j, o in enumerate(ops) if o[0] in ("function", "invariant")]
+            ja, jb = rng.sample(fj, 2)
+            for j, ln in ((ja, la), (jb, lb)):
+                o = ops[j]
+                ops[j] = (o[0], o[1], o[2], o[3], ln) if o[0] == "function" else ("invariant", o[1], ln)
+            # and two derivatives with respect to the same parameter, when two functions share one
+            byname = {}
+            for j, o in enumerate(ops):
+                if o[0] == "partial_deriv":
+                    byname.setdefault(o[1], []).append(j)
+            shared = [v for v in byname.values() if len(v) >= 2]
+            if shared and rng.random() < 0.7:
+                ja, jb = rng.sample(rng.choice(shared), 2)
+                for j, ln in ((ja, la), (jb, lb)):
+                    o = ops[j]
+                    ops[j] = (o[0], o[1], o[2], o[3], ln)
         if mis == "len_inv":
             js = [j for j, o in enumerate(ops) if o[0] == "invariant"]
             if js:
@@ -81,6 +106,12 @@ def main(tier, seed, replay=None):
         cases.append(c)
     workdir = os.path.join(COQ, "run", "C17")
     results = run_harness(binp, "mbuilder", cases, workdir, timeout_ms=10000)
+    rel = release_differences("mbuilder", cases, results, workdir, timeout_ms=10000, with_index=True)
+    for k, c, rr in rel:        # release-profile runs that differ from the dev profile are judged like any other
+        progs.append(progs[k])
+        calls_l.append(calls_l[k])
+        results.append(rr)
+    run.coverage["release_profile_cases_differing_from_dev"] = len(rel)
     terms, idx = [], []
     errs = {}
     for (names, ops, info), calls, r in zip(progs, calls_l, results):
